@@ -24,17 +24,22 @@ CLAIMED = {
             "lenient entry points, exact parser warnings); parseValue on (nested) list tokens of any length returns exactly the list (C02_nested_list_typed); STRING/NUMBER/BOOLEAN/NULL tokens are read back "
             "as str/int/float/bool/null for every state and continuation. PARTIAL: nested blocks/sections, comments, META, zones at document level are backed by the content oracle (content known "
             "independently of any parser, covering matrix value kind x position) and the correspondence on full ASTs with positions."),
-    "C03": ("text", "Lean 4 proof (emitter is a function of content; alias table; indentation; final newline) + convergence search",
-            "Theorems: emit ignores every source position (any depth), alias normalisation agrees with the regenerated ASCII_ALIASES, 2 spaces per level, final newline. PARTIAL: convergence of every "
-            "lenient spelling is proved for no document class yet (flat documents in progress); it is decided by the search: several independent lenient spellings per document converge byte-for-byte; "
-            "independent strict-profile recogniser; octave_write(lenient) bytes."),
+    "C03": ("text", "Lean 4 proof (convergence of every whitespace/quote spelling of flat documents; emitter is a function of content; alias table; indentation; final newline) + convergence search",
+            "Theorems: every lenient spelling of a flat document — spaces around ::, leading indentation, trailing spaces, blank and whitespace-only lines, quotes around plain words, triple quotes, "
+            "omitted or mis-laid ===END=== — canonicalises to the canonical bytes through both canonicalisers, for all documents and all spellings (C03_flat_converge, C03_flat_spellings_agree); "
+            "emit ignores every source position (any depth); alias normalisation agrees with the regenerated ASCII_ALIASES; block trees are emitted with exactly 2 spaces per level; final newline. "
+            "PARTIAL: alias spellings of expressions, one-line vs multi-line lists and spellings of nested documents (in progress) are decided by the search: independent lenient spellings per "
+            "document incl. the far corner (every site non-canonical) converge byte-for-byte; independent strict-profile recogniser; octave_write(lenient) bytes."),
     "C04": ("text", "Lean 4 proof (escape/unescape inverse; every quoted or bare string, boolean, null survives emit -> tokenize -> parse inside a flat document) + exhaustive scalar round trip",
             "Theorems hold for every string of any characters: unescape(escape s) = s; the quoted lexeme re-lexes to ONE STRING token carrying s; a bare word to one IDENTIFIER token; at document level "
             "(flat documents) the value read back equals the value written (C02_flat_content_preserved). PARTIAL: numbers (int/float re-lex, in progress), list / inline-map / META positions and NFC "
             "(finding F16) are decided by the exhaustive correspondence: strings <=3 over the class alphabet x 9 positions, random strings, ints to 4300 digits, floats; octave_write changes path."),
-    "C05": ("text", "Lean 4 proof (no NFC / verbatim copy inside fences for arbitrary environments; verbatim emission) + zone pipelines search",
-            "Theorems: zone content lines are copied verbatim by normalisation and by emit; an empty zone is not absent; a shorter backtick run is content. PARTIAL: byte identity through the whole reader "
-            "and the tool routes is decided by zone-dense generated documents through 9 pipelines; zones and neighbours compared with the generator's model; model/implementation zone correspondence."),
+    "C05": ("text", "Lean 4 proof (a zone is tokenised verbatim for every content, marker and tag; no NFC inside fences; verbatim emission) + zone pipelines search",
+            "Theorems (every content: tabs, NFD, backslashes, quotes, operators, ===END===, shorter backtick runs): normalisation returns the text unchanged with exactly one span, tabs are accepted "
+            "inside it and only there, the lexer yields FENCE_OPEN / LITERAL_CONTENT / FENCE_CLOSE carrying exactly the content, tag and marker, with no receipt (C05_zone_lexes_verbatim); the emitter "
+            "writes it back verbatim; an empty zone keeps its fence tokens. Finding C05N1 is located in the lexer (content of one empty line is tokenised like the empty zone) with the negation "
+            "proved on the witness. PARTIAL: the parser half / whole round trip (in progress), zones inside blocks and the tool routes are decided by zone-dense generated documents through 9 "
+            "pipelines compared with the generator's model and by the model/implementation zone correspondence."),
     "C07": ("text", "Lean 4 proof (lexer-level bijection between normalised tokens and normalisation receipts for every input; canonical flat text has none) + receipt bijection search",
             "Theorems (every input text, both lexer modes): the normalisation receipts are, in order, exactly the normalised tokens with original text, replacement and position "
             "(C07_lexer_receipts_bijection, every_rewrite_has_receipt, every_receipt_has_rewrite); the log is append-only; canonical flat documents yield no normalisation receipt. PARTIAL: parser-level "
